@@ -566,7 +566,7 @@ func genSentence(t *rapid.T, budget int) []string {
 	return g.expr(0)
 }
 
-var mutTokens = []string{"a", `"q"`, "0", "*", ".", "[", "]", "[]", "[?", "(", ")", "{", "}", ",", ":", "==", "<", "||", "&&", "|", "!", "&", "@", "`1`", "'r'"}
+var mutTokens = []string{"a", `"q"`, "0", "*", ".", "[", "]", "[]", "[?", "(", ")", "{", "}", ",", ":", "==", "<", "||", "&&", "|", "!", "&", "@", "`1`", "'r'", "=", "!=", ">=", "-"}
 
 // mutate applies one or two token edits.
 func mutate(t *rapid.T, lex []string) []string {
@@ -574,7 +574,16 @@ func mutate(t *rapid.T, lex []string) []string {
 	edits := 1 + rapid.IntRange(0, 1).Draw(t, "edits")
 	for e := 0; e < edits && len(out) > 0; e++ {
 		p := uni(t, len(out), "mutPos")
-		switch uni(t, 6, "mutKind") {
+		switch uni(t, 7, "mutKind") {
+		case 6: // drop one character of a token written with several (== -> =, && -> &, [? -> [ or ?, ...; not the quoted tokens, whose halves would not stay tokens under re-spacing)
+			for q := 0; q < len(out); q++ {
+				i := (p + q) % len(out)
+				if n := len(out[i]); n >= 2 && n <= 4 && !strings.ContainsAny(out[i], "\"'`") {
+					k := uni(t, n, "mutChar")
+					out[i] = out[i][:k] + out[i][k+1:]
+					break
+				}
+			}
 		case 0: // delete
 			out = append(out[:p], out[p+1:]...)
 		case 1: // insert
